@@ -2,7 +2,7 @@
    Only statements, [exact], Examples and [Print Assumptions] live here. *)
 From Coq Require Import String List Arith Bool Permutation.
 Require Import TT.Model.Str TT.Model.C08Fingerprint TT.Model.C08Run.
-Require Import TT.Proofs.C08RunProofs TT.Proofs.C08FpProofs TT.Proofs.C08Examples TT.Proofs.SortInvSpike TT.Proofs.C14MapOrder.
+Require Import TT.Proofs.C08RunProofs TT.Proofs.C08FpProofs TT.Proofs.C08Examples TT.Proofs.SortInvSpike TT.Proofs.C14MapOrder TT.Proofs.C14PerFile.
 Import ListNotations.
 
 Notation up_to_date_c := (up_to_date project config sched fname tree tree files).
@@ -115,6 +115,30 @@ Example C14_ex_map_orders :
 Proof. split; [reflexivity|]. split; [discriminate|]. split; [reflexivity|]. split; [reflexivity|].
   repeat constructor. Qed.
 
+(* round 7. The per-file order premise of C14_fp_order_independent follows from the structure of the project: files (as one
+   valid order enumerates them) with pairwise distinct relative paths, every command carrying the path of its file. Then
+   every valid order lists the commands of each single file in the same order, and the fingerprint is order independent
+   with no premise about command orders (struct names unique, events discovered in the same order, as before). *)
+Theorem C14_per_file_order_from_structure : forall (root : str) (p : project) (wa wb : sched),
+  is_perm_of_seq (w_files wa) (length p) = true -> is_perm_of_seq (w_files wb) (length p) = true ->
+  NoDup (map (fun f => rel_path root (sf_path f)) (pick empty_file p (w_files wa))) ->
+  (forall f k, In f (pick empty_file p (w_files wa)) -> In k (sf_cmds f) -> c_file k = sf_path f) ->
+  forall x, filter (same_file root x) (a_cmds (analyse wa p)) = filter (same_file root x) (a_cmds (analyse wb p)).
+Proof. exact per_file_order_from_structure. Qed.
+Theorem C14_fp_order_independent_structural : forall (p : project) (c : config) (wa wb : sched),
+  valid_sched wa p c = true -> valid_sched wb p c = true ->
+  NoDup (map (fun f => rel_path (g_ppath c) (sf_path f)) (pick empty_file p (w_files wa))) ->
+  (forall f k, In f (pick empty_file p (w_files wa)) -> In k (sf_cmds f) -> c_file k = sf_path f) ->
+  NoDup (map s_name (a_structs (analyse wa p))) ->
+  u_events (analyse wa p) = u_events (analyse wb p) ->
+  fp wa p c = fp wb p c.
+Proof. exact fp_order_independent_structural. Qed.
+Example C14_ex_structure :
+  valid_sched w01 p2 c0 = true /\ valid_sched w10 p2 c0 = true /\
+  NoDup (map (fun f => rel_path (g_ppath c0) (sf_path f)) (pick empty_file p2 (w_files w01))) /\
+  (forall f k, In f (pick empty_file p2 (w_files w01)) -> In k (sf_cmds f) -> c_file k = sf_path f).
+Proof. exact ex_structure. Qed.
+
 Example C14_ex_premises :
   fp w01 p2 c0 = fp w10 p2 c0 /\ NoDup (map s_name (a_structs (analyse w01 p2))) /\ has_commands p2 = true /\
   u_events (analyse w01 p2) = u_events (analyse w10 p2).
@@ -133,3 +157,5 @@ Print Assumptions C14_relative_path.
 Print Assumptions C14_map_order_irrelevant.
 Print Assumptions C14_run_map_order_irrelevant.
 Print Assumptions C14_history_map_order_irrelevant.
+Print Assumptions C14_per_file_order_from_structure.
+Print Assumptions C14_fp_order_independent_structural.
